@@ -295,6 +295,114 @@ func c22(repo string, out *fg.Out) error {
 	})
 	updateTokenValidatesName := emptyRule && lenRule
 
+	// ---- Snapshot(): every primary map is copied entry by entry BY VALUE (`c := *v; m[k] = &c`),
+	// never by reusing the live pointer (`m[k] = v`) — in-place mutations applied between
+	// Snapshot() and Persist() must not leak into the snapshot.
+	sf, sd := fg.FindFunc(files, "ClusterFSM", "Snapshot")
+	if sd == nil {
+		return fmt.Errorf("ClusterFSM.Snapshot not found")
+	}
+	type snapCopy struct {
+		Map  string
+		Deep bool
+	}
+	var snapCopies []snapCopy
+	for _, st := range sd.Body.List {
+		rs, ok := st.(*ast.RangeStmt)
+		if !ok {
+			continue
+		}
+		src := sf.Text(rs.X) // f.nodes, f.tokens, …
+		val := ""
+		if id, ok := rs.Value.(*ast.Ident); ok {
+			val = id.Name
+		}
+		copied := map[string]bool{} // local names bound to `*val`
+		deep, stored := false, false
+		for _, b := range rs.Body.List {
+			as, ok := b.(*ast.AssignStmt)
+			if !ok || len(as.Lhs) != 1 || len(as.Rhs) != 1 {
+				continue
+			}
+			rhs := sf.Text(as.Rhs[0])
+			if id, ok := as.Lhs[0].(*ast.Ident); ok && rhs == "*"+val {
+				copied[id.Name] = true
+				continue
+			}
+			if _, ok := as.Lhs[0].(*ast.IndexExpr); ok {
+				stored = true
+				if strings.HasPrefix(rhs, "&") && copied[strings.TrimPrefix(rhs, "&")] {
+					deep = true
+				}
+			}
+		}
+		if !stored {
+			return fmt.Errorf("Snapshot: range over %s stores nothing", src)
+		}
+		snapCopies = append(snapCopies, snapCopy{strings.TrimPrefix(src, "f."), deep})
+	}
+	if len(snapCopies) == 0 {
+		return fmt.Errorf("Snapshot: no `for k, v := range f.<map>` copy loops found")
+	}
+	// ---- length checks: which length function every `… > limit` test uses, per function
+	// (apply-time update paths must measure in the same unit as the validate*Entry functions that
+	// Create and Restore use: bytes, `len`)
+	type lenCheck struct {
+		Func, Arg, LenFn, Limit string
+	}
+	var lenChecks []lenCheck
+	lenFuncs := []string{"ValidateManifestPath", "validateTokenHashAndPrefix", "validateTokenEntry", "validateOrganizationEntry",
+		"validateTeamEntry", "validateRoleEntry", "validateMeasurementPermissionEntry",
+		"applyUpdateToken", "applyUpdateOrganization", "applyUpdateTeam", "applyUpdateRole"}
+	for _, name := range lenFuncs {
+		fn, ok := funcs[name]
+		if !ok {
+			return fmt.Errorf("function %s not found", name)
+		}
+		seen := map[string]bool{}
+		ast.Inspect(fn.decl.Body, func(n ast.Node) bool {
+			is, ok := n.(*ast.IfStmt)
+			if !ok {
+				return true
+			}
+			bound := map[string]*ast.CallExpr{} // `if n := f(x); n > limit`
+			if as, ok := is.Init.(*ast.AssignStmt); ok && len(as.Lhs) == 1 && len(as.Rhs) == 1 {
+				if id, ok := as.Lhs[0].(*ast.Ident); ok {
+					if c, ok := as.Rhs[0].(*ast.CallExpr); ok {
+						bound[id.Name] = c
+					}
+				}
+			}
+			ast.Inspect(is.Cond, func(m ast.Node) bool {
+				be, ok := m.(*ast.BinaryExpr)
+				if !ok || be.Op != token.GTR {
+					return true
+				}
+				var call *ast.CallExpr
+				switch x := be.X.(type) {
+				case *ast.CallExpr:
+					call = x
+				case *ast.Ident:
+					call = bound[x.Name]
+				}
+				if call == nil || len(call.Args) != 1 {
+					return true
+				}
+				lc := lenCheck{name, fn.file.Text(call.Args[0]), fn.file.Text(call.Fun), fn.file.Text(be.Y)}
+				key := lc.Arg + "|" + lc.LenFn + "|" + lc.Limit
+				if !seen[key] {
+					seen[key] = true
+					lenChecks = append(lenChecks, lc)
+				}
+				return true
+			})
+			return true
+		})
+	}
+	if len(lenChecks) == 0 {
+		return fmt.Errorf("no length checks found")
+	}
+
 	w := &out.Lean
 	list := func(xs []string) string {
 		q := make([]string, len(xs))
@@ -336,6 +444,27 @@ func c22(repo string, out *fg.Out) error {
 	for _, n := range capNames {
 		fmt.Fprintf(w, "def %s : Nat := %d\n", strings.ToLower(n[:1])+n[1:], caps[n])
 	}
+	fmt.Fprintf(w, "/-- `Snapshot()`: per primary map, are the entries copied by value (true) or is the live pointer reused -/\n")
+	fmt.Fprintf(w, "def snapshotCopies : List (String × Bool) := [\n")
+	for i, sc := range snapCopies {
+		sep := ","
+		if i == len(snapCopies)-1 {
+			sep = ""
+		}
+		fmt.Fprintf(w, "  (%s, %v)%s\n", fg.LeanStr(sc.Map), sc.Deep, sep)
+	}
+	fmt.Fprintf(w, "]\n/-- every `<lengthFn>(<arg>) > <limit>` test: (function, argument, length function, limit) -/\n")
+	fmt.Fprintf(w, "def lengthChecks : List (String × String × String × String) := [\n")
+	for i, lc := range lenChecks {
+		sep := ","
+		if i == len(lenChecks)-1 {
+			sep = ""
+		}
+		fmt.Fprintf(w, "  (%s, %s, %s, %s)%s\n", fg.LeanStr(lc.Func), fg.LeanStr(lc.Arg), fg.LeanStr(lc.LenFn), fg.LeanStr(lc.Limit), sep)
+	}
+	fmt.Fprintf(w, "]\n")
+	out.JSON["snapshot_copies"] = snapCopies
+	out.JSON["length_checks"] = lenChecks
 	fmt.Fprintf(w, "def updateFileIndexesEveryDatabase : Bool := %v\n", updateFileIndexesAll)
 	fmt.Fprintf(w, "def updateTokenValidatesName : Bool := %v\n", updateTokenValidatesName)
 	fmt.Fprintf(w, "end Arc.Generated.C22\n")
